@@ -22,7 +22,7 @@ theorem command_count : commands.length = 115 := by decide +kernel
     of their declared fields (`commands_dropping_fields`). -/
 theorem non_conforming_commands :
     (commands.filter (fun c => !Conforms c)).map (·.name) =
-      ["NegotiateRequest", "NegotiateResponse", "OpenAndxResponse", "WriteRequest"] := by decide +kernel
+      ["NegotiateRequest", "NegotiateResponse", "WriteRequest"] := by decide +kernel
 
 /-- the part of `Conforms` that `conforms_sound` rests on (everything but "no declared field is left
     out") fails for `WriteRequest` only -/
@@ -36,8 +36,7 @@ theorem core_non_conforming_commands :
 theorem commands_dropping_fields :
     (commands.filter (fun c => !allEmitted c)).map
         (fun c => (c.name, (c.fields.map (·.1)).filter (fun f => !(emittedDeep c.marshal).contains f))) =
-      [("NegotiateRequest", ["WordCount"]), ("NegotiateResponse", ["ServerName"]),
-       ("OpenAndxResponse", ["NMPipeStatus", "Reserved"])] := by decide +kernel
+      [("NegotiateRequest", ["WordCount"]), ("NegotiateResponse", ["ServerName"])] := by decide +kernel
 
 /-- the commands outside the straight-line fragment (a loop over a list field, a field emitted under
     a condition, bytes ahead of the parameter block): `Spec.Cifs.encode` is silent on them, so
@@ -45,8 +44,8 @@ theorem commands_dropping_fields :
 theorem commands_outside_straight_line :
     (commands.filter (fun c => (layoutM c.marshal).isNone)).map (·.name) =
       ["FindResponse", "FindUniqueResponse", "LockAndReadResponse", "LockingAndxRequest", "OpenAndxRequest",
-       "QueryInformationResponse", "ReadRawRequest", "TransactionRequest", "WriteAndCloseRequest",
-       "WriteAndxRequest", "WriteRawRequest", "WriteRequest"] := by decide +kernel
+       "OpenAndxResponse", "QueryInformationResponse", "ReadRawRequest", "TransactionRequest",
+       "WriteAndCloseRequest", "WriteAndxRequest", "WriteRawRequest", "WriteRequest"] := by decide +kernel
 
 /-- **Loops over list fields, proved**: of the commands outside the straight-line fragment exactly these five
     pass `ConformsLists` — `Conforms`, and nothing but straight-line statements and `range` loops over a
@@ -56,7 +55,7 @@ theorem commands_outside_straight_line :
 theorem lists_conforming_commands :
     (commands.filter (fun c => (layoutM c.marshal).isNone && ConformsLists c)).map (·.name) =
       ["FindResponse", "FindUniqueResponse", "LockAndReadResponse", "LockingAndxRequest", "OpenAndxRequest",
-       "QueryInformationResponse", "TransactionRequest"] := by
+       "OpenAndxResponse", "QueryInformationResponse", "TransactionRequest"] := by
   decide +kernel
 
 /-- `ConformsLists` extends the straight-line case: every straight-line command that passes `Conforms`
